@@ -29,6 +29,7 @@ func init() {
 			{"C04-R5", "subscription-change detection is membership-based", c04r5},
 			{"C04-R4a", "UpdateWatchedResource callbacks tolerate a nil record", c04r4a},
 			{"C04-R4b", "discarded error then dereference on the request layer", c04r4b},
+			{"C04-R4c", "a watch record that may be absent is dereferenced only after a nil test", c04r4c},
 		},
 	})
 }
@@ -209,7 +210,7 @@ func c04r2(c *Ctx) {
 			}
 		}
 		c.Check(name+":error_detail test present", fn.Pos(), errIf != nil, "no test of request.ErrorDetail found")
-		c.Check(name+":nonce comparison present", fn.Pos(), len(mismatchTrue) == 1, "expected exactly one comparison of the request nonce with NonceSent")
+		c.Check(name+":nonce comparison present", fn.Pos(), len(mismatchTrue) >= 1, "no comparison of the request nonce with NonceSent in the classifier")
 		if errIf == nil {
 			continue
 		}
@@ -228,13 +229,74 @@ func c04r2(c *Ctx) {
 			ok2 := underEdges(fn, r.Block(), allowed)
 			c.Check(name+":positive answer only on init/empty-nonce/matching-nonce", r.Pos(), ok2, "a response can be triggered although a previous record exists and the request nonce differs from the nonce sent: stale requests are answered")
 		})
+		// the recorded subscription is only rewritten for a current request: every store to the record's ResourceNames
+		// (in the classifier or in a function literal it creates) lies under an init / empty-nonce / matching-nonce edge
+		{
+			var sites []ssa.Instruction
+			collect := func(f *ssa.Function, at ssa.Instruction) {
+				eachInstr(f, func(ins ssa.Instruction) {
+					st, ok := ins.(*ssa.Store)
+					if !ok {
+						return
+					}
+					if fa, ok := st.Addr.(*ssa.FieldAddr); ok && fieldVar(fa.X.Type(), fa.Field).Name() == "ResourceNames" {
+						if at != nil {
+							sites = append(sites, at)
+						} else {
+							sites = append(sites, ins)
+						}
+					}
+				})
+			}
+			collect(fn, nil)
+			eachInstr(fn, func(ins ssa.Instruction) {
+				if mk, ok := ins.(*ssa.MakeClosure); ok {
+					if lit, ok := mk.Fn.(*ssa.Function); ok {
+						// a literal that compares the nonce itself is judged on its own edges
+						hasOwn := false
+						for _, i := range allIfs(lit) {
+							v, _ := stripNot(i.Cond)
+							if b, ok := v.(*ssa.BinOp); ok && (loadOfFieldNamed(b.X, "NonceSent") || loadOfFieldNamed(b.Y, "NonceSent")) {
+								hasOwn = true
+							}
+						}
+						if !hasOwn {
+							collect(lit, ins)
+						} else {
+							own := nonceMatchEdges(lit)
+							eachInstr(lit, func(j ssa.Instruction) {
+								st, ok := j.(*ssa.Store)
+								if !ok {
+									return
+								}
+								if fa, ok := st.Addr.(*ssa.FieldAddr); ok && fieldVar(fa.X.Type(), fa.Field).Name() == "ResourceNames" {
+									c.Check(name+":subscription record rewritten only for a current request", j.Pos(), underEdges(lit, j.Block(), own),
+										"the recorded ResourceNames is overwritten inside the update callback before the request nonce was compared with the nonce last sent: a stale request (raced by a push) replaces the record, the following ACK then shows no added names, and the added resource is never sent")
+								}
+							})
+						}
+					}
+				}
+			})
+			for _, site := range sites {
+				c.Check(name+":subscription record rewritten only for a current request", site.Pos(), underEdges(fn, site.Block(), allowed),
+					"the recorded ResourceNames can be overwritten on a path that has not established that the request is a first request or carries the nonce last sent: a stale request (raced by a push) replaces the record, the following ACK then shows no added names, and the added resource is never sent")
+			}
+		}
 		// under the NACK edge / the mismatch edge nothing but `false` is returned
+		var matchEdges []Edge // match edges of the nonce==NonceSent comparisons
+		for _, e := range mismatchTrue {
+			matchEdges = append(matchEdges, Edge{e.From, 1 - e.Idx})
+		}
 		for what, edges := range map[string][]Edge{"NACK": errEdgesNonNil, "stale nonce": mismatchTrue} {
 			if len(edges) == 0 {
 				continue
 			}
 			seen := map[*ssa.BasicBlock]bool{}
-			st := []*ssa.BasicBlock{edges[0].To()}
+			var st []*ssa.BasicBlock
+			for _, e := range edges {
+				st = append(st, e.To())
+			}
 			okAll := true
 			var pos token.Pos = fn.Pos()
 			for len(st) > 0 {
@@ -252,7 +314,20 @@ func c04r2(c *Ctx) {
 						}
 					}
 				}
-				st = append(st, b.Succs...)
+				for k, sx := range b.Succs {
+					skip := false
+					if what == "stale nonce" {
+						// a later comparison of the same two values cannot take its match edge on this path
+						for _, m := range matchEdges {
+							if m.From == b && m.Idx == k {
+								skip = true
+							}
+						}
+					}
+					if !skip {
+						st = append(st, sx)
+					}
+				}
 			}
 			c.Check(name+":"+what+" branch returns false only", pos, okAll, "the "+what+" branch can reach a positive answer")
 		}
@@ -683,4 +758,141 @@ func alwaysRespondForces(c *Ctx) {
 			st = append(st, b.Succs...)
 		}
 	}
+}
+
+
+// C04-R4c: GetWatchedResource returns nil for a type the stream never subscribed to (a first request, a NACK queued by
+// Envoy for a new stream, a non-conformant client). Every dereference of its result - in the calling function, or in a
+// callee that receives it as an argument (one level) - lies under the non-nil edge of a test of that value.
+func c04r4c(c *Ctx) {
+	p := c.P
+	pkgs := map[string]bool{istioMod + "/" + pkgXds: true, istioMod + "/" + pkgXdsLib: true}
+	n := 0
+	derefsGuarded := func(fn *ssa.Function, r ssa.Value) (bool, token.Pos) {
+		var nonNil []Edge
+		for _, i := range allIfs(fn) {
+			x, eq, ok := nilCmp(i.Cond)
+			if !ok || x != r {
+				continue
+			}
+			idx := 0
+			if eq {
+				idx = 1
+			}
+			nonNil = append(nonNil, Edge{i.Block(), idx})
+		}
+		okAll, bad := true, token.NoPos
+		if r.Referrers() == nil {
+			return true, bad
+		}
+		for _, ref := range *r.Referrers() {
+			var base ssa.Value
+			switch x := ref.(type) {
+			case *ssa.FieldAddr:
+				base = x.X
+			case *ssa.UnOp:
+				if x.Op == token.MUL {
+					base = x.X
+				}
+			}
+			if base != r {
+				continue
+			}
+			if !underEdges(fn, ref.Block(), nonNil) {
+				okAll, bad = false, ref.Pos()
+			}
+		}
+		return okAll, bad
+	}
+	for _, fn := range p.AllFuncs {
+		if !pkgs[funcPkgPath(fn)] || strings.HasSuffix(p.Fset.Position(fn.Pos()).Filename, "_test.go") {
+			continue
+		}
+		eachInstr(fn, func(ins ssa.Instruction) {
+			call, ok := ins.(*ssa.Call)
+			if !ok {
+				return
+			}
+			name := ""
+			if call.Call.IsInvoke() {
+				name = call.Call.Method.Name()
+			} else if o := calleeObj(ins); o != nil {
+				name = o.Name()
+			}
+			if name != "GetWatchedResource" {
+				return
+			}
+			n++
+			ok1, pos := derefsGuarded(fn, call)
+			if !pos.IsValid() {
+				pos = call.Pos()
+			}
+			c.Check("absent watch record not dereferenced:"+stableFnName(fn), pos, ok1, "the result of GetWatchedResource is dereferenced on a path that has not established it is non-nil: a request (e.g. a NACK) for a type without a watch on this stream panics, and the stream goroutines do not recover, so istiod goes down")
+			// handed to a callee: its parameter must be guarded the same way
+			for _, ref := range *call.Referrers() {
+				ci, ok := ref.(ssa.CallInstruction)
+				if !ok {
+					continue
+				}
+				callee := ci.Common().StaticCallee()
+				if callee == nil || callee.Blocks == nil || !isIstioFunc(callee) {
+					continue
+				}
+				if pos := ref.Block(); pos != nil {
+					// already under a non-nil edge in the caller?
+					var nonNil []Edge
+					for _, i := range allIfs(fn) {
+						if x, eq, ok := nilCmp(i.Cond); ok && x == ssa.Value(call) {
+							idx := 0
+							if eq {
+								idx = 1
+							}
+							nonNil = append(nonNil, Edge{i.Block(), idx})
+						}
+					}
+					if underEdges(fn, ref.Block(), nonNil) {
+						continue
+					}
+				}
+				for k, a := range ci.Common().Args {
+					if a != ssa.Value(call) || k >= len(callee.Params) {
+						continue
+					}
+					n++
+					ok2, pos2 := derefsGuarded(callee, callee.Params[k])
+					if !pos2.IsValid() {
+						pos2 = ref.Pos()
+					}
+					c.Check("absent watch record not dereferenced:"+stableFnName(fn)+"->"+callee.Name(), pos2, ok2, "a possibly-nil watch record is passed to "+callee.Name()+", which dereferences the parameter on a path without a nil test")
+				}
+			}
+		})
+	}
+	c.Check("GetWatchedResource call sites found", token.NoPos, n >= 5, "fewer call sites than confirmed by hand")
+	c.Floor(6)
+}
+
+
+// nonceMatchEdges: edges of f under which the request nonce equals the recorded NonceSent, or is empty.
+func nonceMatchEdges(f *ssa.Function) []Edge {
+	var out []Edge
+	for _, i := range allIfs(f) {
+		v, neg := stripNot(i.Cond)
+		b, ok := v.(*ssa.BinOp)
+		if !ok || (b.Op != token.EQL && b.Op != token.NEQ) {
+			continue
+		}
+		isNonce := func(v ssa.Value) bool { return loadOfFieldNamed(v, "ResponseNonce") }
+		isSent := func(v ssa.Value) bool { return loadOfFieldNamed(v, "NonceSent") }
+		isEmpty := func(v ssa.Value) bool { s, ok := constString(v); return ok && s == "" }
+		if !((isNonce(b.X) && (isSent(b.Y) || isEmpty(b.Y))) || (isNonce(b.Y) && (isSent(b.X) || isEmpty(b.X)))) {
+			continue
+		}
+		idx := 1
+		if (b.Op == token.EQL) != neg {
+			idx = 0
+		}
+		out = append(out, Edge{i.Block(), idx})
+	}
+	return out
 }
